@@ -128,6 +128,22 @@ pub fn exercise(text: &str, paths: &[String]) -> Outcome {
             }
             ops += 5;
         }
+        // the empty combinator (zero patterns), alone and as a member of another combinator
+        if let Ok(empty) = wax::any(Vec::<&str>::new()) {
+            let _ = empty.depth();
+            let _ = empty.text();
+            let _ = empty.has_root();
+            let _ = empty.is_exhaustive();
+            let _ = empty.is_match("");
+            let _ = empty.is_match("a");
+            let _ = wax::any([empty.clone()]).map(|a| a.is_match("a"));
+            if let Ok(a) = wax::any([text]) {
+                let _ = wax::any([a.clone(), empty.clone()]).map(|x| (x.depth(), x.is_match("a")));
+                let _ = wax::any([empty.clone(), a]).map(|x| (x.is_exhaustive(), x.has_root()));
+            }
+            let _ = Path::new(".").walk().not(empty).is_ok();
+            ops += 10;
+        }
         let _ = Path::new(".").walk().not(text).is_ok();
         let _ = Path::new(".").walk().not(wax::any([text, "b"])).is_ok();
         ops += 2;
